@@ -292,8 +292,8 @@ def parseOpts : List Opt → Nat → Nat × Option Raise
 def exitStatus (c : Int) : Nat := (c % 256).toNat
 
 /-- `Solver::WRITE_SOL_FILE = 1`, `SUPPRESS_SOLVER_MSG = 8` -/
-def wantsFile (ampl : Bool) (wantsol : Nat) : Bool := ampl || wantsol % 2 == 1
-def suppressMsg (wantsol : Nat) : Bool := (wantsol / 8) % 2 == 1
+def wantsFile (ampl : Bool) (wantsol : Nat) : Bool := ampl || (wantsol &&& 1) != 0
+def suppressMsg (wantsol : Nat) : Bool := (wantsol &&& 8) != 0
 
 /-- `AppSolutionHandlerImpl::HandleSolution` → `SolutionWriterImpl::HandleSolution` →
 `WriteSolFile`.  `none` = a `fmt::SystemError` leaves the function (the file cannot be opened, or
